@@ -201,6 +201,40 @@ func goid() int64 {
 // monitors once everything has returned. An operation that blocks on a lock the paused one holds is given 30 ms;
 // then the paused operation is resumed and the blocked one finishes afterwards (the schedule a real mutex gives).
 func (s *Sim) runInterleaved(a Op, k int, after bool, nb int) {
+	cnt := 0
+	pause := func(c world.Call, aft bool) bool {
+		if aft != after {
+			return false
+		}
+		cnt++
+		return cnt == k
+	}
+	i := 0
+	next := func() (Op, bool) {
+		for i < nb {
+			i++
+			var b Op
+			if c, ok := s.controllerOp(); ok && s.rng.Intn(3) == 0 {
+				b = c
+			} else {
+				b = s.nextOp()
+			}
+			if b.Kind == "restart" || b.Kind == "quiesce" || (b.Kind == "reload" && a.Kind == "reload") {
+				continue // two overlapping reloads leave "the configuration in force" ambiguous for the harness
+			}
+			if (b.Kind == "filter" || b.Kind == "bind") && (a.Kind == "filter" || a.Kind == "bind") && b.Pod == a.Pod {
+				continue // one scheduler: a pod is never filtered/bound twice at the same time
+			}
+			return b, true
+		}
+		return Op{}, false
+	}
+	s.runPaused(a, pause, next)
+}
+
+// runPaused is the general form: pause decides at which of a's API calls to stop it, next yields the operations to
+// run meanwhile.
+func (s *Sim) runPaused(a Op, pause func(c world.Call, after bool) bool, next func() (Op, bool)) {
 	if s.ownAlarms() > 0 {
 		return
 	}
@@ -210,13 +244,11 @@ func (s *Sim) runInterleaved(a Op, k int, after bool, nb int) {
 	paused, resume, doneA := make(chan struct{}), make(chan struct{}), make(chan struct{})
 	var once sync.Once
 	var aGo int64
-	cnt := 0
 	s.W.In.Yield = func(c world.Call, aft bool) {
-		if goid() != atomic.LoadInt64(&aGo) || aft != after {
+		if goid() != atomic.LoadInt64(&aGo) {
 			return
 		}
-		cnt++
-		if cnt == k {
+		if pause(c, aft) {
 			once.Do(func() { close(paused); <-resume })
 		}
 	}
@@ -235,18 +267,10 @@ func (s *Sim) runInterleaved(a Op, k int, after bool, nb int) {
 	resumed := false
 	if reached {
 		s.Counts["interleave_pause_reached"]++
-		for i := 0; i < nb; i++ {
-			var b Op
-			if c, ok := s.controllerOp(); ok && s.rng.Intn(3) == 0 {
-				b = c
-			} else {
-				b = s.nextOp()
-			}
-			if b.Kind == "restart" || b.Kind == "quiesce" || (b.Kind == "reload" && a.Kind == "reload") {
-				continue // two overlapping reloads leave "the configuration in force" ambiguous for the harness
-			}
-			if (b.Kind == "filter" || b.Kind == "bind") && (a.Kind == "filter" || a.Kind == "bind") && b.Pod == a.Pod {
-				continue // one scheduler: a pod is never filtered/bound twice at the same time
+		for {
+			b, ok := next()
+			if !ok {
+				break
 			}
 			doneB := make(chan struct{})
 			go func() { defer close(doneB); s.exec(b, nil, nil) }()
@@ -278,6 +302,135 @@ func (s *Sim) runInterleaved(a Op, k int, after bool, nb int) {
 		return
 	}
 	s.afterCompound()
+}
+
+// interleaveTemplate runs one of the seeded two-operation overlaps on this (cloned) simulation:
+// 0: an API release of the reserved IP of a deleted pod identity is paused right after it learned from the API server
+//
+//	that the pod does not exist; meanwhile the same-named pod is re-created, filtered and bound; then the release resumes.
+//
+// 1: a resync pass is paused at its first API-server call; meanwhile a bound pod is deleted, its event handled, the
+//
+//	same-named pod re-created, filtered and bound; then the pass resumes.
+func (s *Sim) interleaveTemplate(kind int) {
+	var wl *Workload
+	var wi int
+	for i, w := range s.WLs {
+		if (w.Kind == KSts || w.Kind == KBare || w.Kind == KTApp) && w.Exists {
+			if kind == 0 && w.effPolicy() == 0 {
+				continue
+			}
+			wl, wi = w, i
+			break
+		}
+	}
+	if wl == nil {
+		return
+	}
+	do := func(o Op) { s.exec(o, nil, nil) }
+	deliverAll := func() {
+		for _, r := range []string{"sts", "dp", "pools", "pods"} {
+			for s.W.Pending(r) > 0 && s.ownAlarms() == 0 {
+				do(Op{Kind: "deliver", Res: r})
+			}
+		}
+	}
+	first := func() *corev1.Pod {
+		ps := s.podsOf(wl)
+		if len(ps) == 0 {
+			return nil
+		}
+		return ps[0]
+	}
+	for _, p := range s.podsOf(wl) { // start from a clean slate for this identity
+		do(Op{Kind: "delete", Pod: string(p.UID)})
+	}
+	deliverAll()
+	for len(s.W.Releases) > 0 && s.ownAlarms() == 0 {
+		do(Op{Kind: "release", Idx: 0})
+	}
+	do(Op{Kind: "create", WL: wi})
+	deliverAll()
+	a := first()
+	if a == nil {
+		return
+	}
+	do(Op{Kind: "filter", Pod: string(a.UID)})
+	r := s.Pods[string(a.UID)]
+	if r == nil || len(r.Offered) == 0 {
+		return
+	}
+	do(Op{Kind: "bind", Pod: string(a.UID), Node: r.Offered[0]})
+	b, ok := s.told()[string(a.UID)]
+	if !ok || len(b.IPs) == 0 {
+		return
+	}
+	deliverAll()
+	// the operations that run while the other one is paused: re-create the identity and schedule it
+	stage := 0
+	var npod string
+	recreate := func(withDelete bool) func() (Op, bool) {
+		return func() (Op, bool) {
+			for {
+				stage++
+				switch stage {
+				case 1:
+					if withDelete {
+						return Op{Kind: "delete", Pod: string(a.UID)}, true
+					}
+				case 2, 3:
+					if withDelete && s.W.Pending("pods") > 0 {
+						return Op{Kind: "deliver", Res: "pods"}, true
+					}
+				case 4:
+					if withDelete && len(s.W.Releases) > 0 {
+						return Op{Kind: "release", Idx: 0}, true
+					}
+				case 5:
+					return Op{Kind: "create", WL: wi}, true
+				case 6, 7:
+					if s.W.Pending("pods") > 0 {
+						return Op{Kind: "deliver", Res: "pods"}, true
+					}
+				case 8:
+					if p := first(); p != nil && string(p.UID) != string(a.UID) {
+						npod = string(p.UID)
+						return Op{Kind: "filter", Pod: npod}, true
+					}
+					return Op{}, false
+				case 9:
+					if r := s.Pods[npod]; r != nil && len(r.Offered) > 0 {
+						return Op{Kind: "bind", Pod: npod, Node: r.Offered[s.rng.Intn(len(r.Offered))]}, true
+					}
+					return Op{}, false
+				default:
+					return Op{}, false
+				}
+			}
+		}
+	}
+	switch kind {
+	case 0:
+		do(Op{Kind: "delete", Pod: string(a.UID)})
+		deliverAll()
+		for len(s.W.Releases) > 0 && s.ownAlarms() == 0 {
+			do(Op{Kind: "release", Idx: 0})
+		}
+		s.Counts["interleave_template_release_vs_rebind"]++
+		s.runPaused(Op{Kind: "apirelease", Str: b.IPs[0]},
+			func(c world.Call, after bool) bool { return after && c.Verb == "get" && c.Resource == "pods" }, recreate(false))
+	case 1:
+		s.Counts["interleave_template_resync_vs_recreate"]++
+		s.runPaused(Op{Kind: "resync"},
+			func(c world.Call, after bool) bool { return !after && c.Verb == "get" && c.Resource == "pods" }, recreate(true))
+	}
+	if s.ownAlarms() == 0 {
+		deliverAll()
+		for len(s.W.Releases) > 0 && s.ownAlarms() == 0 {
+			do(Op{Kind: "release", Idx: 0})
+		}
+		do(Op{Kind: "resync"})
+	}
 }
 
 // afterCrash restarts the plugin after an injected crash and evaluates the crash monitors of C05.
